@@ -1,6 +1,8 @@
 (* C17 - Partial masking keeps exactly the fully supported pixels. *)
 From Coq Require Import ZArith List Bool.
 From HV Require Import Base.ZRange Kernel.Morph Kernel.MorphProofs Grid.Window Grid.WindowProofs.
+From HVgen Require Import Blocks.
+From HV Require Import Tie.BlockTie.
 Open Scope Z_scope.
 
 Theorem C17_erode_is_forall_window H W m kh kw i j : 1 <= kh -> 1 <= kw -> kh mod 2 = 1 -> kw mod 2 = 1 ->
@@ -61,3 +63,12 @@ Example C17_example :
   let m := fun u v => negb ((u =? 2) && (v =? 3)) in
   (erode 7 9 m 1 3 3 4, erode 7 9 m 1 3 4 6, erode 7 9 m 1 3 0 4, erode 7 9 m 3 1 4 3) = (false, true, false, false).
 Proof. vm_compute. reflexivity. Qed.
+
+(* ---- tie to the source: with partial masking the current fuse.py hands block_pairs one pixel more than the erosion reach (the premise of
+        C17_seam_sampling_safe); _full_coverage_mask thresholds the average coverage at 1, ands the joint mask and erodes with a
+        (kernel + 2) element and a zero border *)
+Theorem C17_source_overlap_with_partial_masking k : 1 <= k -> k mod 2 = 1 -> (k - 1) / 2 + 1 + 1 <= gen_fuse_overlap true k.
+Proof. intros A B. exact (proj2 (tie_fuse_overlap k A B)). Qed.
+Theorem C17_source_partial_mask_structure k : gen_erode_size k = k + 2 /\ gen_partial_mask_ok = true.
+Proof. exact (tie_partial_mask k). Qed.
+Print Assumptions C17_source_overlap_with_partial_masking.
